@@ -307,6 +307,7 @@ class Table(object):
     """cumulative weight table over 256 slots"""
 
     def __init__(self, entries):
+        self.rows = list(entries)
         self.slots = []
         total = float(sum(wt for wt, _ in entries))
         acc = 0.0
